@@ -84,19 +84,41 @@ def Rel.isAtom : Rel → Bool
   | .transfer .. => true
   | _ => false
 
+/-- Extra invariants carried along by `Good`: a predicate on the payload-holding nodes at the boundary
+(leaves, materializations, transfers) and one on Select markers, which must hold of every freshly created
+Select (allocation id 0).  The tree-building theorems hold for every such pair, so whatever is known of the
+atoms and Selects of the input is known of those of the output: the engine never invents a leaf. -/
+structure NodeInv where
+  atom : Rel → Prop
+  sel : Rel → Prop
+  selNew : ∀ S, S.oid = 0 → sel S
+
+/-- No extra invariant. -/
+def NodeInv.triv : NodeInv := ⟨fun _ => True, fun _ => True, fun _ _ => trivial⟩
+
 /-- Trees the SQL engine's tree building is shown sound on: raw trees, coherent Selects whose skip
 target is again such a tree and has the shape `to_payload` can compile (`Rel.compOK`), and anything built from those.  Every relation the SQL engine's
 factories return for such an input is again one (`treeBuild_sound`), so the theorems compose over
 construction histories. -/
-inductive Good (σ : Leaves) : Rel → Prop
-  | atom (r : Rel) : r.isAtom = true → r.WF → r.Truthful σ → r.engine.kind = .sql → Good σ r
-  | unary (op : UOp) (t : Rel) (c : Cols) : Good σ t → (Rel.unary op t c).WF → Good σ (.unary op t c)
-  | chain (l r : Rel) (c : Cols) : Good σ l → Good σ r → (Rel.binary .chain l r c).WF →
-      Good σ (.binary .chain l r c)
-  | join (j : JoinOp) (l r : Rel) (c : Cols) : Good σ l → Good σ r → (Rel.binary (.join j) l r c).WF →
+inductive Good (I : NodeInv) (σ : Leaves) : Rel → Prop
+  | atom (r : Rel) : r.isAtom = true → r.WF → r.Truthful σ → r.engine.kind = .sql → I.atom r → Good I σ r
+  | unary (op : UOp) (t : Rel) (c : Cols) : Good I σ t → (Rel.unary op t c).WF → Good I σ (.unary op t c)
+  | chain (l r : Rel) (c : Cols) : Good I σ l → Good I σ r → (Rel.binary .chain l r c).WF →
+      Good I σ (.binary .chain l r c)
+  | join (j : JoinOp) (l r : Rel) (c : Cols) : Good I σ l → Good I σ r → (Rel.binary (.join j) l r c).WF →
       j.pred.columnsRequired.subset (l.columns.union r.columns) = true → l.engine = r.engine →
-      Good σ (.binary (.join j) l r c)
-  | sel (S : Rel) : SelOK σ S → S.engine.kind = .sql → S.skipTo.compOK true = true → Good σ S.skipTo → Good σ S
+      Good I σ (.binary (.join j) l r c)
+  | sel (S : Rel) : SelOK σ S → S.engine.kind = .sql → S.skipTo.compOK true = true → I.sel S →
+      Good I σ S.skipTo → Good I σ S
+
+/-- The atoms of a raw tree satisfy the atom invariant. -/
+def Rel.AtomsOK (I : NodeInv) : Rel → Prop
+  | .leaf a b c d e f g h => I.atom (.leaf a b c d e f g h)
+  | .unary _ t _ => Rel.AtomsOK I t
+  | .binary _ l r _ => Rel.AtomsOK I l ∧ Rel.AtomsOK I r
+  | .mat a b t => I.atom (.mat a b t)
+  | .transfer a b t => I.atom (.transfer a b t)
+  | .select a b c d e f g h i => I.sel (.select a b c d e f g h i) ∧ Rel.AtomsOK I g
 
 /-! ### Construction histories inside one SQL engine -/
 
@@ -165,6 +187,14 @@ def SqlBuild.direct (σ : Leaves) : SqlBuild → List Row
   | .join a b pred =>
     joinRows (Cols.keys (Cols.inter b.cols a.cols)) pred (SqlBuild.direct σ a) (SqlBuild.direct σ b)
   | .mat _ b => SqlBuild.direct σ b
+
+/-- The leaves of the history satisfy the atom invariant. -/
+def SqlBuild.LeavesOK (I : NodeInv) (eng : Engine) : SqlBuild → Prop
+  | .leaf oid cols name mn mx msgs => I.atom (.leaf oid eng cols name mn mx true msgs)
+  | .op _ b => SqlBuild.LeavesOK I eng b
+  | .chain a b => SqlBuild.LeavesOK I eng a ∧ SqlBuild.LeavesOK I eng b
+  | .join a b _ => SqlBuild.LeavesOK I eng a ∧ SqlBuild.LeavesOK I eng b
+  | .mat _ b => SqlBuild.LeavesOK I eng b
 
 /-- Preconditions on the history: truthful leaves. -/
 def SqlBuild.ok (σ : Leaves) : SqlBuild → Prop
